@@ -179,6 +179,39 @@ func hasSplit(e mrogen.Expr) bool {
 	return false
 }
 
+// splitBindingsLost: does some map call of the original program have fewer
+// split arguments after the edit (calls that were removed do not count)?
+func splitBindingsLost(ast0, ast1 *syntax.Ast) bool {
+	count := func(ast *syntax.Ast) map[string]int {
+		r := map[string]int{}
+		for _, pl := range ast.Pipelines {
+			for _, c := range pl.Calls {
+				if c.Mapping == nil {
+					continue
+				}
+				n := 0
+				for _, b := range c.Bindings.List {
+					if b.Id == "*" {
+						break
+					}
+					if expHasSplit(b.Exp) {
+						n++
+					}
+				}
+				r[pl.Id+"."+c.Id] = n
+			}
+		}
+		return r
+	}
+	after := count(ast1)
+	for k, n := range count(ast0) {
+		if m, ok := after[k]; ok && m < n {
+			return true
+		}
+	}
+	return false
+}
+
 // splitSourceRemoved: is the parameter split over in some map call of the
 // callable?  Then the call maps over something else (or over less) after the
 // removal, and what it and everything downstream resolves to may change.
@@ -669,7 +702,7 @@ func TestC19Refactor(t *testing.T) {
 	defer debug.SetMaxStack(debug.SetMaxStack(256 << 20))
 	if b := stats.InflightReplay(); b != nil {
 		var c struct {
-			Src  string                      `json:"src"`
+			Src  string                     `json:"src"`
 			Conf refactoring.RefactorConfig `json:"conf"`
 		}
 		if err := json.Unmarshal(b, &c); err != nil {
@@ -893,23 +926,35 @@ func TestC19Refactor(t *testing.T) {
 			if j2 != j0 || !ast2.EquivalentCall(ast0) || !ast0.EquivalentCall(ast2) {
 				fail(t, "C19", "rename-round-trip-differs:"+kind, "X->Y then Y->X is not equivalent to the original:\n%s\n%s", firstDiff(j0, j2), describe("--- renamed back\n"+out2))
 			}
-		case "remove-input":
+		case "remove-input", "remove-unused":
+			// a map call that lost one of the arguments it was split over
+			// (the removed input itself, or a pipeline input the cascade
+			// removed) maps over something else afterwards: what it and
+			// everything downstream resolves to - up to the top-level
+			// outputs - legitimately changes; only "still compiles" is
+			// claimed for such edits
+			if splitBindingsLost(ast0, ast1) {
+				stats.Count("C19", "graph_comparison_skipped_split_source_removed", 1)
+				break
+			}
+			if kind == "remove-unused" {
+				if msg := compareGraphsAfterRemoval(ast0, ast1, "", "", true, false); msg != "" {
+					fail(t, "C19", "call-graph-changed:"+kind, "%s\n%s", msg, describe("--- edited\n"+out))
+				}
+				// the top-level call's signature must be untouched
+				if ast1.Call == nil || ast1.Call.DecId != ast0.Call.DecId {
+					fail(t, "C19", "top-call-changed", "%s", describe("--- edited\n"+out))
+				}
+				c0 := ast0.Callables.Table[ast0.Call.DecId]
+				c1 := ast1.Callables.Table[ast1.Call.DecId]
+				// (inputs that only fed removed calls disappear legitimately)
+				if c1 == nil || len(c0.GetOutParams().List) != len(c1.GetOutParams().List) {
+					fail(t, "C19", "top-callable-outputs-changed", "removing unused elements changed the top-level callable's outputs\n%s", describe("--- edited\n"+out))
+				}
+				break
+			}
 			if msg := compareGraphsAfterRemoval(ast0, ast1, target, param, false, splitSourceRemoved(prog, target, param)); msg != "" {
 				fail(t, "C19", "call-graph-changed:"+kind, "%s\n%s", msg, describe("--- edited\n"+out))
-			}
-		case "remove-unused":
-			if msg := compareGraphsAfterRemoval(ast0, ast1, "", "", true, false); msg != "" {
-				fail(t, "C19", "call-graph-changed:"+kind, "%s\n%s", msg, describe("--- edited\n"+out))
-			}
-			// the top-level call's signature must be untouched
-			if ast1.Call == nil || ast1.Call.DecId != ast0.Call.DecId {
-				fail(t, "C19", "top-call-changed", "%s", describe("--- edited\n"+out))
-			}
-			c0 := ast0.Callables.Table[ast0.Call.DecId]
-			c1 := ast1.Callables.Table[ast1.Call.DecId]
-			// (inputs that only fed removed calls disappear legitimately)
-			if c1 == nil || len(c0.GetOutParams().List) != len(c1.GetOutParams().List) {
-				fail(t, "C19", "top-callable-outputs-changed", "removing unused elements changed the top-level callable's outputs\n%s", describe("--- edited\n"+out))
 			}
 		}
 		_ = ast1
